@@ -261,8 +261,8 @@ theorem insertChild_docInv (s : St) (p c : Nat) (ref : Option Nat) (hi : Inv s) 
               cases hck : cn.kind with
               | elem nm =>
                 rw [hck] at href
-                simp only at href
-                have hall := List.any_eq_false.mp href n hn'
+                simp only [Bool.or_eq_false_iff] at href
+                have hall := List.any_eq_false.mp href.1 n hn'
                 have hidc : n.id = c := by
                   simp only at hqk
                   cases hnkind : n.kind with
@@ -311,12 +311,17 @@ theorem removeChild_docInv (s : St) (p c : Nat) (hd : DocInv s) : DocInv (remove
   · rw [h]; exact hd
   · rw [heq]; exact (hd.of_topLe (detach_topLe s s1 c (some x) hdt)).same_doc rfl
 
-theorem detachKeep_topLe (s : St) (i : Nat) : TopLe s (detachKeep s i) := by
-  unfold detachKeep
+theorem detachKeep_topLe (s : St) (i : Nat) : TopLe s (s.detachKeep i) := by
+  unfold St.detachKeep
   cases hdt : s.detach i with
   | mk s' x =>
     have := detach_topLe s s' i x hdt
     cases x <;> exact this
+
+theorem detachAll_topLe (l : List Nat) : ∀ (s : St), TopLe s (s.detachAll l) := by
+  induction l with
+  | nil => intro s; exact TopLe.refl s
+  | cons i r ih => intro s; exact (detachKeep_topLe s i).trans (ih _)
 
 theorem update_attrs_topLe (s : St) (e : Nat) (g : List Node → List Node) : TopLe s (s.update e (Node.mapAttrs g)) :=
   update_topLe s e _ (keeps_mapAttrs g) (fun _ => by rw [kids_mapAttrs])
@@ -360,16 +365,16 @@ theorem replaceChild_docInv (s : St) (p new old : Nat) (hi : Inv s) (hd : DocInv
             cases r2 <;> first | exact hd | exact h2
         | _ => exact hd
 
-theorem sAN_docInv (s : St) (hd : DocInv s) (pr : St × Option Nat) (ht : TopLe s pr.1) (a e : Nat) :
-    DocInv (match pr.1.detach a with
-      | (s2, some x) => (s2.update e (Node.mapAttrs (· ++ [x])), (match pr.2 with | some o => Res.node o | none => Res.none_))
+theorem sAN_docInv (s s1 : St) (hd : DocInv s) (ht : TopLe s s1) (oldId : Option Nat) (a e : Nat) :
+    DocInv (match s1.detach a with
+      | (s2, some x) => (s2.update e (Node.mapAttrs (· ++ [x])), (match oldId with | some o => Res.node o | none => Res.none_))
       | (_, none) => (s, Res.err Exc.notFound)).1 := by
-  cases hd2 : pr.fst.detach a with
+  cases hd2 : s1.detach a with
   | mk s2 x =>
     cases x with
     | none => exact hd
     | some n =>
-      exact hd.of_topLe ((ht.trans (detach_topLe pr.fst s2 a (some n) hd2)).trans (update_attrs_topLe s2 e _))
+      exact hd.of_topLe ((ht.trans (detach_topLe s1 s2 a (some n) hd2)).trans (update_attrs_topLe s2 e _))
 
 theorem setValue_attr_docInv (s : St) (hd : DocInv s) (n : Nat) (nn : Node) (hf : s.find n = some nn)
     (nm : Str) (sp : Bool) (hk : nn.kind = .attr nm sp) (items : List Node) (n' : Nat) :
@@ -436,16 +441,15 @@ theorem step_docInv (s : St) (op : Op) (hi : Inv s) (hd : DocInv s) : DocInv (st
                    all_goals exact hd
   | removeAttribute e name =>
     simp only [step]
-    repeat' split
-    all_goals first
-      | exact hd
-      | (rename_i hdt; exact (hd.of_topLe (detach_topLe s _ _ _ hdt)).same_doc rfl)
+    split
+    · exact hd.of_topLe (detachAll_topLe _ s)
+    · exact hd
   | removeAttributeNode e a =>
     simp only [step]
     repeat' split
     all_goals first
       | exact hd
-      | (rename_i hdt; exact (hd.of_topLe (detach_topLe s _ _ _ hdt)).same_doc rfl)
+      | exact hd.of_topLe (detachAll_topLe _ s)
   | setAttribute e name value =>
     simp only [step]
     split
@@ -456,13 +460,7 @@ theorem step_docInv (s : St) (op : Op) (hi : Inv s) (hd : DocInv s) : DocInv (st
         · split
           · exact hd
           · next ps hps =>
-            have ht : TopLe s (match findAttr en name with
-                  | some o => detachKeep s o.id
-                  | none => s) := by
-              cases findAttr en name with
-              | some o => exact detachKeep_topLe s o.id
-              | none => exact TopLe.refl s
-            exact (hd.of_topLe (ht.trans (update_attrs_topLe _ e _))).same_doc rfl
+            exact (hd.of_topLe ((detachAll_topLe (sameLocalIds en name) s).trans (update_attrs_topLe _ e _))).same_doc rfl
       · exact hd
     · exact hd
   | setAttributeNode e a =>
@@ -475,21 +473,7 @@ theorem step_docInv (s : St) (op : Op) (hi : Inv s) (hd : DocInv s) : DocInv (st
         · exact hd
         · split
           · exact hd
-          · have ht : TopLe s (match findAttr en nm with
-                | some o =>
-                  (match s.detach o.id with
-                  | (s', some x) => (({ s' with detached := s'.detached ++ [x] } : St), some o.id)
-                  | (s', none) => (s', none))
-                | none => (s, (none : Option Nat))).fst := by
-              cases findAttr en nm with
-              | none => exact TopLe.refl s
-              | some o =>
-                simp only
-                cases hdt : s.detach o.id with
-                | mk s' x =>
-                  have := detach_topLe s s' o.id x hdt
-                  cases x <;> exact this
-            exact sAN_docInv s hd _ ht a e
+          · exact sAN_docInv s _ hd (detachAll_topLe (sameLocalIds en nm) s) _ a e
       · exact hd
     · exact hd
   | setValue n v =>
